@@ -12,7 +12,6 @@ DEDUCTIVE = ['vsg.vhdlFile.vhdlFile.vhdlFile.fix_blank_lines', 'vsg.vhdlFile.vhd
 def run():
     c = Check("C01", "other")
     c.engine = Engine()
-    if DEDUCTIVE:
-        c.deductive(DEDUCTIVE)
+    c.deductive(sorted(set(DEDUCTIVE + _pipeline.fix_bases(c.engine))))
     _pipeline.pipeline_part(c, "C01")
     return c.finish({"explanation": META["text"]})
